@@ -283,6 +283,8 @@ package factstore
 
 // Interface contracts: a store denotes a set of ground atoms (ghost view, closed under structural equality).
 //@ ghost view(s ReadOnlyFactStore) set[ast.Atom]
+// fcount(s): what EstimateFactCount reports (exact for the exact stores).
+//@ ghost fcount(s ReadOnlyFactStore) int
 //@ spec func closedView(s ReadOnlyFactStore) bool = forall a ast.Atom, b ast.Atom :: a in view(s) && ast.atomEq(a, b) ==> b in view(s)
 
 //@ func (self ReadOnlyFactStore) Contains(a)
@@ -297,17 +299,18 @@ package factstore
 
 //@ func (self ReadOnlyFactStore) EstimateFactCount()
 //@   modifies nothing
+//@   ensures result == fcount(self)
 
 //@ func (self FactStore) Merge(other)
-//@   modifies view(self)
+//@   modifies view(self), fcount(self)
 
 //@ func (self FactStore) Add(a)
-//@   modifies view(self)
+//@   modifies view(self), fcount(self)
 //@   ensures result == !old(a in view(self))
 //@   ensures forall b ast.Atom :: (b in view(self)) == (old(b in view(self)) || ast.atomEq(b, a))
 
 //@ func (self FactStoreWithRemove) Remove(a)
-//@   modifies view(self)
+//@   modifies view(self), fcount(self)
 //@   ensures result == old(a in view(self))
 //@   ensures forall b ast.Atom :: (b in view(self)) == (old(b in view(self)) && !ast.atomEq(b, a))
 
@@ -322,13 +325,13 @@ package factstore
 
 //@ func (s TeeingStore) Add(atom)
 //@   requires twf(s)
-//@   modifies view(s.Out)
+//@   modifies view(s.Out), fcount(s.Out)
 //@   ensures result == !old(tview(s, atom))
 //@   ensures forall b ast.Atom :: tview(s, b) == (old(tview(s, b)) || ast.atomEq(b, atom))
 
 //@ func (s TeeingStore) Remove(atom)
 //@   requires twf(s)
-//@   modifies view(s.Out)
+//@   modifies view(s.Out), fcount(s.Out)
 //@   ensures forall b ast.Atom :: (b in view(s.Out)) == (old(b in view(s.Out)) && !ast.atomEq(b, atom))
 
 // MultiIndexedArrayInMemoryStore (the output store of every TeeingStore): a pattern query yields nothing but
@@ -370,7 +373,7 @@ package factstore
 
 //@ func (s MergedStore) Add(atom)
 //@   requires mwf(s) && (forall k int :: 0 <= k && k < len(s.readStore) ==> s.readStore[k] != (s.writeStore as ReadOnlyFactStore))
-//@   modifies view(s.writeStore)
+//@   modifies view(s.writeStore), fcount(s.writeStore)
 //@   ensures result == !old(mview(s, atom))
 //@   ensures forall b ast.Atom :: mview(s, b) == (old(mview(s, b)) || ast.atomEq(b, atom))
 
@@ -468,3 +471,8 @@ package factstore
 //@   guard sort 1: forall i int, j int :: 0 <= i && i < len(preds) && 0 <= j && j < len(preds) && preds[i] != preds[j] ==> less(i, j) || less(j, i)
 //@   guard sort 2: forall i int, j int :: 0 <= i && i < len(facts) && 0 <= j && j < len(facts) && facts[i].String() != facts[j].String() ==> less(i, j) || less(j, i)
 //@   opt nosafety
+
+// Constructors allocate; they do not change existing stores.
+//@ func NewTemporalStore(opts)
+//@   trusted
+//@   modifies nothing
